@@ -23,7 +23,9 @@ Record xsys := mkX {
   x_handle : bool;                               (* the harness still holds its Client *)
   x_elapsed : N;
   x_evend : bool;                                (* ev:end already reported *)
-  x_cf : sconf; x_srv : sstate; x_c2s : bytes; x_s2c : bytes
+  x_cf : sconf; x_srv : sstate; x_c2s : bytes; x_s2c : bytes;
+  x_wp : bool;                                   (* the peer does not read: writes block *)
+  x_wh : bytes                                   (* the write the loop task is blocked in *)
 }.
 
 (* one trace segment under construction *)
@@ -32,22 +34,25 @@ Definition seg0 : seg := mkSeg [] [] [] [] false.
 
 Definition set_pt (x : xsys) (p : point) (el : N) : xsys :=
   mkX (x_h x) (x_pw x) (x_client x) (x_failed x) p (x_spawned x) (x_buf x) (x_bst x) (x_inbox x) (x_eof x) (x_rerr x)
-      (x_wfail x) (x_queue x) (x_callers x) (x_handle x) el (x_evend x) (x_cf x) (x_srv x) (x_c2s x) (x_s2c x).
+      (x_wfail x) (x_queue x) (x_callers x) (x_handle x) el (x_evend x) (x_cf x) (x_srv x) (x_c2s x) (x_s2c x) (x_wp x) (x_wh x).
 Definition set_conn (x : xsys) (buf : bytes) (st : bstate) (inbox : bytes) : xsys :=
   mkX (x_h x) (x_pw x) (x_client x) (x_failed x) (x_pt x) (x_spawned x) buf st inbox (x_eof x) (x_rerr x)
-      (x_wfail x) (x_queue x) (x_callers x) (x_handle x) (x_elapsed x) (x_evend x) (x_cf x) (x_srv x) (x_c2s x) (x_s2c x).
+      (x_wfail x) (x_queue x) (x_callers x) (x_handle x) (x_elapsed x) (x_evend x) (x_cf x) (x_srv x) (x_c2s x) (x_s2c x) (x_wp x) (x_wh x).
 Definition set_qc (x : xsys) (q : list request) (cs : list (N * ckind)) : xsys :=
   mkX (x_h x) (x_pw x) (x_client x) (x_failed x) (x_pt x) (x_spawned x) (x_buf x) (x_bst x) (x_inbox x) (x_eof x) (x_rerr x)
-      (x_wfail x) q cs (x_handle x) (x_elapsed x) (x_evend x) (x_cf x) (x_srv x) (x_c2s x) (x_s2c x).
+      (x_wfail x) q cs (x_handle x) (x_elapsed x) (x_evend x) (x_cf x) (x_srv x) (x_c2s x) (x_s2c x) (x_wp x) (x_wh x).
 Definition set_h (x : xsys) (h : hpoint) (client failed spawned : bool) : xsys :=
   mkX h (x_pw x) client failed (x_pt x) spawned (x_buf x) (x_bst x) (x_inbox x) (x_eof x) (x_rerr x)
-      (x_wfail x) (x_queue x) (x_callers x) (x_handle x) (x_elapsed x) (x_evend x) (x_cf x) (x_srv x) (x_c2s x) (x_s2c x).
+      (x_wfail x) (x_queue x) (x_callers x) (x_handle x) (x_elapsed x) (x_evend x) (x_cf x) (x_srv x) (x_c2s x) (x_s2c x) (x_wp x) (x_wh x).
 Definition set_flags (x : xsys) (eof rerr wfail handle evend : bool) : xsys :=
   mkX (x_h x) (x_pw x) (x_client x) (x_failed x) (x_pt x) (x_spawned x) (x_buf x) (x_bst x) (x_inbox x) eof rerr
-      wfail (x_queue x) (x_callers x) handle (x_elapsed x) evend (x_cf x) (x_srv x) (x_c2s x) (x_s2c x).
+      wfail (x_queue x) (x_callers x) handle (x_elapsed x) evend (x_cf x) (x_srv x) (x_c2s x) (x_s2c x) (x_wp x) (x_wh x).
+Definition set_w (x : xsys) (wp : bool) (wh : bytes) : xsys :=
+  mkX (x_h x) (x_pw x) (x_client x) (x_failed x) (x_pt x) (x_spawned x) (x_buf x) (x_bst x) (x_inbox x) (x_eof x) (x_rerr x)
+      (x_wfail x) (x_queue x) (x_callers x) (x_handle x) (x_elapsed x) (x_evend x) (x_cf x) (x_srv x) (x_c2s x) (x_s2c x) wp wh.
 Definition set_net (x : xsys) (srv : sstate) (c2s s2c : bytes) : xsys :=
   mkX (x_h x) (x_pw x) (x_client x) (x_failed x) (x_pt x) (x_spawned x) (x_buf x) (x_bst x) (x_inbox x) (x_eof x) (x_rerr x)
-      (x_wfail x) (x_queue x) (x_callers x) (x_handle x) (x_elapsed x) (x_evend x) (x_cf x) srv c2s s2c.
+      (x_wfail x) (x_queue x) (x_callers x) (x_handle x) (x_elapsed x) (x_evend x) (x_cf x) srv c2s s2c (x_wp x) (x_wh x).
 
 (* ---------- canonical printing (same format as harness/src/loopcases.rs) ---------- *)
 
@@ -165,7 +170,9 @@ Definition caller_result (x : xsys) (g : seg) (id : N) (k : ckind) (r : option r
 
 Definition route (x : xsys) (g : seg) (o : cout) : xsys * seg :=
   match o with
-  | OWrite bs => (set_net x (x_srv x) (x_c2s x ++ bs) (x_s2c x), add_w g bs)
+  | OWrite bs =>
+    if x_wp x then (set_w x true (x_wh x ++ bs), g)      (* write_all blocks: nothing reaches the wire yet *)
+    else (set_net x (x_srv x) (x_c2s x ++ bs) (x_s2c x), add_w g bs)
   | OReply id rep =>
     match find_caller id (x_callers x) with
     | Some k => caller_result x g id k (Some rep)
@@ -296,6 +303,7 @@ Fixpoint settle (fuel : nat) (x : xsys) (g : seg) : xsys * seg :=
     | Some (x', g') => settle f x' g'
     | None =>
       if negb (x_spawned x) then (x, g) else
+      if match x_wh x with [] => false | _ => true end then (x, g) else     (* the loop task is blocked in a write *)
       match client_event x with
       | None => (x, g)
       | Some (i, x1) =>
@@ -447,6 +455,10 @@ Definition apply_label (x : xsys) (lab : bytes) : option bytes * xsys * option b
     else if kind =? 114 then run_op lab (set_flags x (x_eof x) true (x_wfail x) (x_handle x) (x_evend x)) seg0
     else if kind =? 119 then run_op lab (set_flags x (x_eof x) (x_rerr x) true (x_handle x) (x_evend x)) seg0
     else if kind =? 104 then run_op lab (set_flags x (x_eof x) (x_rerr x) (x_wfail x) false (x_evend x)) seg0
+    else if kind =? 112 then run_op lab (set_w x true (x_wh x)) seg0          (* p: the peer stops reading *)
+    else if kind =? 117 then                                                   (* u: it reads again; the blocked write completes *)
+      let x1 := set_w (set_net x (x_srv x) (x_c2s x ++ x_wh x) (x_s2c x)) false [] in
+      run_op lab x1 (add_w seg0 (x_wh x))
     else if kind =? 116 then   (* t<ms> *)
       run_op lab (set_pt x (x_pt x) (match x_pt x with PWindow => x_elapsed x + id | _ => x_elapsed x end)) seg0
     else if kind =? 120 then   (* x<id> *)
@@ -492,7 +504,7 @@ Definition run_loopm (args : list bytes) : bytes :=
               | _ => None
               end in
     let x0 := mkX HGreeting pw false false PIdle false [] Initial [] false false false [] [] true 0 false
-                  (parse_conf conf) s0 [] greeting_bytes in
+                  (parse_conf conf) s0 [] greeting_bytes false [] in
     let '(x1, g1) := settle 100 x0 seg0 in
     let '(t0, x2) := show_seg x1 g1 in
     let '(ops, segs) := run_labels x2 labs [] [t0] in
